@@ -292,7 +292,9 @@ a row whose log record finds no cell at recovery, contents that differ - is a co
 marked, so that it is matched with that finding and not reported as something new. -/
 def vio (j : J) (sig what : String) : String :=
   let sig' := if j.afterRefusedMultirow && !sig.startsWith "db:failed-" && !sig.startsWith "db:fimage-" && !sig.startsWith "db:image-"
-      && !sig.startsWith "db:invalid-" && !sig.startsWith "db:cache-full" then sig ++ ":after-refused-multirow-statement" else sig
+      && !sig.startsWith "db:invalid-" && !sig.startsWith "db:cache-full"
+      -- (two runs of the SAME operations at two cache capacities: a refused statement is in both)
+      && !sig.startsWith "db:cache-size-dependent" then sig ++ ":after-refused-multirow-statement" else sig
   s!"VIOLATION case={j.caseId} sig={sig'} {what}"
 
 /-- A difference found after a refused statement is blamed on that statement only when the table was
